@@ -27,6 +27,9 @@ CLAIMED = {
  "C13": ("select-case classification + dominator/edge analysis + all-paths outcome check + symbolic bound proof (> 0) over go/ssa",
          "Static: every blocking select in the limiter package has wake-up, ctx.Done and (when the configured bound is positive) timer cases, no bare blocking channel operation exists, only the wake-up case yields success; ctx.Err()/deadline tests dominate every delegate.Acquire, their failing edges refuse untouched, a post-wait Acquire requires the signalled result; a computed remaining-time bound is proved > 0 before it reaches the wait primitive. Existence and ordering of the give-up mechanisms only: exact instants on a virtual clock are not decided.",
          "5/C13"),
+ "C02": ("all-paths effect counting + acquire/consume typestate (incl. loop-back paths) + closure/provenance resolution + must-lockset over go/ssa",
+         "Static: every outcome of the capacity-owning listener gives back gauge -1 and one token.Release on every path; wrappers forward the same outcome once; every listener/token obtained from a delegate or strategy is consumed exactly once on every path where it may hold capacity (returned, wrapped, delivered or completed) including refused hand-off, timeout, cancel and loop-back paths; results obey 'listener iff ok'; the hand-off channel protocol cannot strand a token; partition grant/release closures charge and return the same bin and the total once each under the mutex; the gauge is incremented only on the grant path; StaticStrategyToken.Release runs its function once. Caller misuse is outside the statement.",
+         "5/C02"),
 }
 
 PENDING_REASON = "check not built yet in this session; see DESIGN.md section 5 for the planned static obligations"
